@@ -145,8 +145,6 @@ impl World {
     }
     pub fn connected(&self, i: usize) -> bool { self.conns[i].connected }
     pub fn has_connected(&self) -> bool { self.reg.has_connected }
-    pub fn in_flight(&self, i: usize) -> i32 { self.conns[i].in_flight_packets }
-    pub fn last_received(&self, i: usize) -> Option<u64> { self.conns[i].last_received }
 
     /// handshake datagrams that reached each receiver-side socket since the last drain
     fn drain_wire(&mut self) -> Vec<Vec<i128>> {
@@ -477,6 +475,15 @@ async fn establish(w: &mut World, pol: &[Policy], rng: &mut Rng, probe: bool) {
     }
 }
 
+impl World {
+    /// End of a case: abort the reader tasks housekeeping spawned (they hold socket Arcs).
+    pub async fn finish(mut self) -> World {
+        for (_, r) in self.readers.drain() { r.handle.abort(); }
+        for _ in 0..4 { tokio::task::yield_now().await; }
+        self
+    }
+}
+
 fn case_text(w: &World) -> String {
     format!("Case {} {} [{}]", w.n, w.t0, w.steps.join(";"))
 }
@@ -628,33 +635,36 @@ pub fn run(seed: u64, tier: &str, out: &Path, extra: &[(String, String)]) -> std
     // directed scenarios (regression witnesses run on every check)
     for cfg in [60000u64, 1000, 5000] {
         let mut r = rng.fork(1);
-        let w = rt.block_on(sc_timeout_config(&mut r, refresh, cfg));
+        let w = rt.block_on(async { sc_timeout_config(&mut r, refresh, cfg).await.finish().await });
         push(&mut run, "timeout_config", w);
     }
     for n in [2usize, 3] {
         let mut r = rng.fork(2);
-        let w = rt.block_on(sc_backoff(&mut r, n));
+        let w = rt.block_on(async { sc_backoff(&mut r, n).await.finish().await });
         push(&mut run, "backoff_ladder", w);
     }
     {
         // F8 witness (pre-registration data + NAK on a re-created link, then REG3): regression case
         let mut r = rng.fork(3);
-        let w = rt.block_on(sc_prereg_nak(&mut r));
+        let w = rt.block_on(async { sc_prereg_nak(&mut r).await.finish().await });
         push(&mut run, "prereg_nak", w);
     }
     let (n_rec, n_rand) = if thorough { (120, 1500) } else { (12, 150) };
     for k in 0..n_rec {
         let mut r = rng.fork(100 + k);
-        let w = rt.block_on(sc_recovery(&mut r, 2 + (k as usize % 3), (k % 4) as u8));
+        let w = rt.block_on(async { sc_recovery(&mut r, 2 + (k as usize % 3), (k % 4) as u8).await.finish().await });
         push(&mut run, "recovery", w);
     }
     for k in 0..n_rand {
         let mut r = rng.fork(10_000 + k);
         let len = 30 + (k as usize % 50);
-        let w = rt.block_on(sc_random(&mut r, len));
+        let w = rt.block_on(async { sc_random(&mut r, len).await.finish().await });
         push(&mut run, "random", w);
     }
     for (k, v) in &hist { run.count_n(&format!("op:{k}"), *v); }
+    run.samples.push("F6 witness (regression): SetTimeout 60000; both links registered; link 0 black-holed, no client traffic; ticks every 1 s -> link 0 must stay up until 60 s of silence (before /repo 260b76c it was torn down after 5 s: clause 1)".into());
+    run.samples.push("F8 witness (regression): link 0 re-created by housekeeping, 20 pre-registration data packets flushed on it, SRT NAK charged (window 19900), REG3 -> must rejoin with window 20000, in-flight 0, Warming{0} (before /repo 75843c9 window stayed 19900: clause 6)".into());
+    run.samples.push("back-off ladder: established link dies, socket re-creation fails; attempts observed at 5,10,20,40,80,120,120,120 s with ticks 1 ms before / at / after each boundary".into());
     run.note(format!("shape: every handle_housekeeping call site in src/sender/mod.rs is preceded by refresh_conn_timeouts = {shape}; ticks generated with refresh = {refresh}"));
     run.note("ops per case 30-140; ticks drawn from boundary pools (1000/4000/5000/10000/60000/120000 +-1); receivers scripted per link (good / black-hole / lossy / forgot group / refuse); faults: bind failure, send failure (socket shut down), I/O entry dropped, REG_ERR/REG_NGP injections".into());
     run.finish(16, 1_000_000)
